@@ -14,6 +14,7 @@ import OFV.Proofs.C04TwoBodyAll
 import OFV.Proofs.C04Iop2
 import OFV.Proofs.C04Dch
 import OFV.Proofs.C04Rev4
+import OFV.Proofs.C04JFinal
 
 namespace OFV.C04
 open OFV OFV.Spec OFV.Model OFV.Model.C04 OFV.Sem
@@ -228,6 +229,76 @@ theorem reverse_jw_left_inverse (tol : Rat) (htol : tol * tol ≤ 1 / 4) (A : Mo
   rw [reverse_jw_sound tol htol _ (jwFermion_canon_valid tol htol A) hok2 m x]
   exact jw_exact tol htol A hA hok1 m x
 
+/-! ### dual-basis jellium: the direct Jordan-Wigner form over the exact index structure -/
+
+/-- **`Grid.orbital_id` / `Grid.grid_indices` / `all_points_indices`** (every dimension, all lengths): the grid
+points, numbered by `tensor_factor`, are exactly `0 .. n-1` (so sums over points are sums over site numbers),
+`grid_indices` inverts the numbering, and shifting by a grid point modulo the lengths permutes the grid. -/
+theorem jellium_grid_index_structure (l : List Nat) :
+    (∀ F : Nat → GQ, ((C04J.allPoints l).map fun x => F (C04J.tensorFactor l x)).sum
+        = ((List.range (C04J.prodL l)).map F).sum)
+    ∧ (∀ x ∈ C04J.allPoints l, ∀ sl : Bool,
+        C04J.gridIndices l (C04J.orbitalId l x (if sl then none else some 0)) sl = x
+        ∧ C04J.gridIndices l (C04J.orbitalId l x (if sl then none else some 1)) sl = x)
+    ∧ (∀ s ∈ C04J.allPoints l, ∀ G : List Nat → List Nat → GQ,
+        ((C04J.allPoints l).map fun b => G b (C04J.shiftIdx l b s)).sum
+          = ((C04J.allPoints l).map fun y => G (C04J.subIdx l y s) y).sum) := by
+  refine ⟨?_, ?_, ?_⟩
+  · intro F
+    have := Jel.sum_allPoints l F
+    simpa only [Jel.tensorFactor_eq] using this
+  · intro x hx sl
+    have hv := (Jel.allPoints_mem l x).1 hx
+    cases sl with
+    | true =>
+      simp only [if_true, C04J.orbitalId, Jel.gridIndices_eq, Jel.tensorFactor_eq, Jel.gi_tf l x hv, and_self]
+    | false =>
+      simp only [Bool.false_eq_true, if_false, C04J.orbitalId, Jel.gridIndices_eq, Jel.tensorFactor_eq]
+      have e0 : (Jel.tf l x * 2 + 0) / 2 = Jel.tf l x := by omega
+      have e1 : (Jel.tf l x * 2 + 1) / 2 = Jel.tf l x := by omega
+      rw [e0, e1, Jel.gi_tf l x hv]
+      exact ⟨rfl, rfl⟩
+  · intro s hs G
+    exact Jel.shift_sum l s ((Jel.allPoints_mem l s).1 hs) G
+
+/-- **`jordan_wigner_dual_basis_jellium` is sound**: for every grid (any number of dimensions, any lengths, any
+cell), spinless or with spin, with or without the Madelung constant, the operator written out directly — identity,
+local `Z`, `ZZ` for every pair, `XZ…ZX + YZ…ZY` for every equal-spin pair, with the momentum sums
+`K(δ) = Σ_k cos(k·r_δ) k²/2n`, `P(δ) = Σ_k (2π/Ω) cos(k·r_δ)/k²` as abstract functions of the displacement
+(`identity = nK(0) − nP(0)/2` (halved if spinless), `z = P(0)/2 − K(0)/2`, `zz = P(δ)/2`, `xzx = yzy = K(δ)/2`) —
+has the matrix elements of `dual_basis_jellium_model`: `Σ K(y−x) a†_{x,σ} a_{y,σ} + Σ_{(x,σ)≠(y,σ')} P(y−x) n_{x,σ} n_{y,σ'}`
+built by the double loop over lattice sites and shifts modulo the lengths.  Hypotheses on the abstract functions:
+`K`, `P` even (`cos` is even), and `Σ_δ P(δ) = 0` (orthogonality of the non-zero momenta: this is what makes the
+local-`Z` and identity coefficients of the direct form the right ones); both `+=` chains in the exact regime. -/
+theorem jw_jellium_direct_sound (tol : Rat) (l : List Nat) (spinless : Bool) (kin pot : List Nat → GQ)
+    (const : Option GQ)
+    (hevenK : ∀ u ∈ C04J.allPoints l, ∀ v ∈ C04J.allPoints l, kin (C04J.subIdx l u v) = kin (C04J.subIdx l v u))
+    (hevenP : ∀ u ∈ C04J.allPoints l, ∀ v ∈ C04J.allPoints l, pot (C04J.subIdx l u v) = pot (C04J.subIdx l v u))
+    (hsum : ((C04J.allPoints l).map pot).sum = 0)
+    (hokD : C04J.jwJelliumDirectOk tol l spinless kin pot const = true)
+    (hokM : C04J.dualBasisModelOk tol l spinless kin pot const = true) (m x : Nat) :
+    GV.coeff (applyOp .qubit (C04J.jwJelliumDirect tol l spinless kin pot const) [m]) [x]
+      = GV.coeff (applyOp .fermion (C04J.dualBasisModel tol l spinless kin pot const) [m]) [x] :=
+  Jel.jellium_direct_eq_model tol l spinless kin pot const
+    (fun u v hu hv => hevenK u ((Jel.allPoints_mem l u).2 hu) v ((Jel.allPoints_mem l v).2 hv))
+    (fun u v hu hv => hevenP u ((Jel.allPoints_mem l u).2 hu) v ((Jel.allPoints_mem l v).2 hv))
+    hsum hokD hokM m x
+
+/-- … hence it **equals `jordan_wigner` of the dual-basis FermionOperator** built from the same coefficient
+functions (as operators on every basis state), all three runs exact -/
+theorem jw_jellium_direct_eq_jordan_wigner (tol : Rat) (htol : tol * tol ≤ 1 / 4) (l : List Nat) (spinless : Bool)
+    (kin pot : List Nat → GQ) (const : Option GQ)
+    (hevenK : ∀ u ∈ C04J.allPoints l, ∀ v ∈ C04J.allPoints l, kin (C04J.subIdx l u v) = kin (C04J.subIdx l v u))
+    (hevenP : ∀ u ∈ C04J.allPoints l, ∀ v ∈ C04J.allPoints l, pot (C04J.subIdx l u v) = pot (C04J.subIdx l v u))
+    (hsum : ((C04J.allPoints l).map pot).sum = 0)
+    (hokD : C04J.jwJelliumDirectOk tol l spinless kin pot const = true)
+    (hokM : C04J.dualBasisModelOk tol l spinless kin pot const = true)
+    (hokJ : jwFermionOk tol (C04J.dualBasisModel tol l spinless kin pot const) = true) (m x : Nat) :
+    GV.coeff (applyOp .qubit (C04J.jwJelliumDirect tol l spinless kin pot const) [m]) [x]
+      = GV.coeff (applyOp .qubit (jwFermion tol (C04J.dualBasisModel tol l spinless kin pot const)) [m]) [x] := by
+  rw [jw_jellium_direct_sound tol l spinless kin pot const hevenK hevenP hsum hokD hokM m x]
+  exact (jw_exact tol htol _ (Jel.model_ladder tol l spinless kin pot const) hokJ m x).symm
+
 /-! ### non-vacuity -/
 
 /-- the threshold the driver runs with satisfies the hypothesis of the theorems -/
@@ -324,7 +395,23 @@ example : jwDCHOk Generated.eqTolerance 3 ⟨mkRat 3 4, 0⟩
 * the exact-regime hypotheses (`jw…Ok`) cannot be dropped: `+=` deletes values below `EQ_TOLERANCE`.
 * linearity / multiplicativity / compatibility with Hermitian conjugation of `jordan_wigner` as separate
   statements (they follow from `jw_exact` + the homomorphism theorems of the Spec semantics, C01).
-* the dual-basis jellium helpers (floating point; no Model). -/
+* the dual-basis jellium helpers: the index structure and the operator identity ARE theorems
+  (`jw_jellium_direct_sound`, momentum sums abstract); that the floating-point momentum sums of the library are
+  even and satisfy `Σ_δ P(δ) = 0` up to rounding is checked numerically by the harness only;
+  `jordan_wigner_dual_basis_hamiltonian` (external potential of nuclei) has no Model. -/
+
+/-- all hypotheses of `jw_jellium_direct_sound` on a concrete 2-D grid with unequal lengths `3 × 2`, spinless
+(6 qubits; the spinful case is exercised by the harness) and with a constant: tables of `K` and `P` that are even and with `Σ P = 0` -/
+example :
+    let l := [3, 2]
+    let kin := C04J.tableFn l [⟨2, 0⟩, ⟨-1, 0⟩, ⟨-1, 0⟩, ⟨mkRat 1 2, 0⟩, ⟨mkRat 1 4, 0⟩, ⟨mkRat 1 4, 0⟩]
+    let pot := C04J.tableFn l [⟨1, 0⟩, ⟨-(mkRat 1 2), 0⟩, ⟨-(mkRat 1 2), 0⟩, ⟨mkRat 1 2, 0⟩, ⟨-(mkRat 1 4), 0⟩, ⟨-(mkRat 1 4), 0⟩]
+    (∀ u ∈ C04J.allPoints l, ∀ v ∈ C04J.allPoints l, kin (C04J.subIdx l u v) = kin (C04J.subIdx l v u))
+    ∧ (∀ u ∈ C04J.allPoints l, ∀ v ∈ C04J.allPoints l, pot (C04J.subIdx l u v) = pot (C04J.subIdx l v u))
+    ∧ ((C04J.allPoints l).map pot).sum = 0
+    ∧ C04J.jwJelliumDirectOk Generated.eqTolerance l true kin pot (some ⟨mkRat 7 4, 0⟩) = true
+    ∧ C04J.dualBasisModelOk Generated.eqTolerance l true kin pot (some ⟨mkRat 7 4, 0⟩) = true := by
+  refine ⟨by decide +kernel, by decide +kernel, by decide +kernel, by decide +kernel, by decide +kernel⟩
 
 /-- exact-regime hypotheses of `reverse_jw_left_inverse` on a concrete operator (kernel-evaluated) -/
 example :
